@@ -63,7 +63,7 @@ func genRules(t *rapid.T, tier string) (*World, any) {
 	}
 	if chance(t, 40, "variety") {
 		for i := 0; i < 24; i++ {
-			opts.Vars = append(opts.Vars, drawInt(t, 0, 5, "var"))
+			opts.Vars = append(opts.Vars, drawInt(t, 0, len(ruleVars)-1, "var"))
 			tr := 0
 			if chance(t, 25, "trailing") {
 				tr = drawInt(t, 1, 3, "ntrail")
